@@ -30,9 +30,6 @@ def toolRootIsDir : Bool := toolRootFact.getD true
 def resolveCalls : List (String × String × String × String) := [
   ("cli/tool:tool.CLIInterpreter.LoadInitialFile", "ioutil.ReadFile(i.EntryFile)", "configured", "the program's own entry / log / configuration file, named by the user"),
   ("cli/tool:tool.CLIInterpreter.LoadStdlibPlugins", "ioutil.ReadFile(confFile)", "configured", "the program's own entry / log / configuration file, named by the user"),
-  ("util:util.FileImportLocator.Resolve", "filepath.Abs(importPath)", "configured", ""),
-  ("util:util.FileImportLocator.Resolve", "importCache.Load(key)", "unknown", "call not classified (it may touch the file system)"),
-  ("util:util.FileImportLocator.Resolve", "importCache.Store(key, res)", "unknown", "call not classified (it may touch the file system)"),
   ("util:util.FileImportLocator.Resolve", "ioutil.ReadFile(importPath)", "configured", "")
 ]
 
